@@ -7,6 +7,7 @@ CONSTANTS
   DelimKinds = {"nl", "c1", "R3", "a12"}
   HostDelimKinds = {"c1", "a12", "a11"}
   WithNoop = TRUE
+  WithLim = TRUE
   Codecs = {"bytes"}
   PayAlpha = {1}
   MaxPay = 2
@@ -27,5 +28,5 @@ CONSTANTS
   MaxErr = 0
   AfterDone = 0
 SPECIFICATION Spec
-INVARIANTS SinkExact SinkPrefix RoundTrip InRange PosInside NoPanicModuloKnown MeasureNonNeg
+INVARIANTS SinkExact SinkPrefix RoundTrip InRange PosInside NoPanicModuloKnown BuiltinNeverPoisoned MeasureNonNeg
 PROPERTIES Progress WProgress
